@@ -41,6 +41,7 @@ import (
 	transfertypes "github.com/cosmos/ibc-go/v7/modules/apps/transfer/types"
 	clienttypes "github.com/cosmos/ibc-go/v7/modules/core/02-client/types"
 	stakingtypes "github.com/cosmos/cosmos-sdk/x/staking/types"
+	slashingtypes "github.com/cosmos/cosmos-sdk/x/slashing/types"
 	"github.com/ethereum/go-ethereum/common"
 	ethcrypto "github.com/ethereum/go-ethereum/crypto"
 
@@ -185,6 +186,11 @@ func chainTx(n *Node, contracts *[]common.Address, t M) ([]byte, error) {
 	case "vest_create":
 		a := sdk.NewCoins(coin(str(t, "amt")))
 		lock := sdkvesting.Periods{{Length: num(t, "lock", 30), Amount: a}}
+		if d := str(t, "dust"); d != "" && d != "0" {
+			// a lockup schedule whose first tranche is dust: a proportional split of it rounds to nothing
+			dust := sdk.NewCoins(coin(d))
+			lock = sdkvesting.Periods{{Length: num(t, "lock", 30) / 3, Amount: dust}, {Length: num(t, "lock", 30) - num(t, "lock", 30)/3, Amount: a.Sub(dust...)}}
+		}
 		half := sdk.NewCoins(sdk.NewCoin(utils.BaseDenom, a[0].Amount.QuoRaw(2)))
 		vest := sdkvesting.Periods{{Length: num(t, "vest", 5), Amount: half}, {Length: num(t, "vest", 5), Amount: a.Sub(half...)}}
 		return cosmos(500000, vestingtypes.NewMsgCreateClawbackVestingAccount(from.Addr, w.Acct(str(t, "to")).Addr,
@@ -548,6 +554,111 @@ func chainTx(n *Node, contracts *[]common.Address, t M) ([]byte, error) {
 			msgs = append(msgs, ucdaotypes.NewMsgTransferOwnershipWithAmount(from.Addr, to.Addr, sdk.NewCoins(coin(str(t, "amt")))))
 		}
 		return cosmos(uint64(200000+90000*cnt), msgs...)
+	case "gov_params":
+		// governance moves the parameters of one module to legal edge values (zero, empty, false, the other flag);
+		// what an export carries and what a restarted node reads back must be exactly these values
+		gov := authtypes.NewModuleAddress("gov").String()
+		var msgs []sdk.Msg
+		var legacy []paramproposal.ParamChange
+		switch str(t, "which") {
+		case "fm_mult0", "fm_mult1", "fm_nobasefee", "fm_elasticity1", "fm_minprice":
+			p := n.App.FeeMarketKeeper.GetParams(n.Ctx())
+			switch str(t, "which") {
+			case "fm_mult0":
+				p.MinGasMultiplier = sdk.ZeroDec()
+			case "fm_mult1":
+				p.MinGasMultiplier = sdk.OneDec()
+			case "fm_nobasefee":
+				p.NoBaseFee = !p.NoBaseFee
+			case "fm_elasticity1":
+				p.ElasticityMultiplier = 1
+			case "fm_minprice":
+				if p.MinGasPrice.IsZero() {
+					p.MinGasPrice = sdk.NewDecWithPrec(5, 1)
+				} else {
+					p.MinGasPrice = sdk.ZeroDec()
+				}
+			}
+			msgs = append(msgs, &feemarkettypes.MsgUpdateParams{Authority: gov, Params: p})
+		case "erc20_hook":
+			p := n.App.Erc20Keeper.GetParams(n.Ctx())
+			p.EnableEVMHook = t["enable"] == true
+			msgs = append(msgs, &erc20types.MsgUpdateParams{Authority: gov, Params: p})
+		case "distr_zero":
+			p := n.App.DistrKeeper.GetParams(n.Ctx())
+			p.CommunityTax = sdk.ZeroDec()
+			p.WithdrawAddrEnabled = !p.WithdrawAddrEnabled
+			msgs = append(msgs, &distrtypes.MsgUpdateParams{Authority: gov, Params: p})
+		case "slash_zero":
+			p := n.App.SlashingKeeper.GetParams(n.Ctx())
+			p.SlashFractionDowntime = sdk.ZeroDec()
+			p.SlashFractionDoubleSign = sdk.ZeroDec()
+			p.MinSignedPerWindow = sdk.ZeroDec()
+			msgs = append(msgs, &slashingtypes.MsgUpdateParams{Authority: gov, Params: p})
+		case "staking_edge":
+			p := n.App.StakingKeeper.GetParams(n.Ctx())
+			p.MinCommissionRate = sdk.ZeroDec()
+			p.MaxEntries = 2
+			msgs = append(msgs, &stakingtypes.MsgUpdateParams{Authority: gov, Params: p})
+		case "evm_channels":
+			p := n.App.EvmKeeper.GetParams(n.Ctx())
+			if len(p.EVMChannels) == 0 {
+				p.EVMChannels = []string{"channel-7"}
+			} else {
+				p.EVMChannels = []string{}
+			}
+			msgs = append(msgs, &evmtypes.MsgUpdateParams{Authority: gov, Params: p})
+		case "gov_flags":
+			p := n.App.GovKeeper.GetParams(n.Ctx())
+			p.BurnVoteVeto = !p.BurnVoteVeto
+			p.BurnVoteQuorum = !p.BurnVoteQuorum
+			p.BurnProposalDepositPrevote = !p.BurnProposalDepositPrevote
+			msgs = append(msgs, &govv1.MsgUpdateParams{Authority: gov, Params: p})
+		case "lv_edge":
+			legacy = append(legacy, paramproposal.NewParamChange(liquidvestingtypes.ModuleName, "MinimumLiquidationAmount", "\"1\""))
+		case "lv_off":
+			v := "false"
+			if t["enable"] == true {
+				v = "true"
+			}
+			legacy = append(legacy, paramproposal.NewParamChange(liquidvestingtypes.ModuleName, "EnableLiquidVesting", v))
+		case "coin_coeff0":
+			legacy = append(legacy, paramproposal.NewParamChange(coinomicstypes.ModuleName, "ParamStoreKeyRewardCoefficient", "\"0.000000000000000000\""))
+		default:
+			return nil, fmt.Errorf("unknown parameter change %q", str(t, "which"))
+		}
+		if legacy != nil {
+			content := paramproposal.NewParameterChangeProposal("p", "d", legacy)
+			msg, err := govv1beta1.NewMsgSubmitProposal(content, sdk.NewCoins(coin("5000")), from.Addr)
+			if err != nil {
+				return nil, err
+			}
+			return cosmos(500000, msg)
+		}
+		msg, err := govv1.NewMsgSubmitProposal(msgs, sdk.NewCoins(coin("5000")), from.Addr.String(), "", "t", "s")
+		if err != nil {
+			return nil, err
+		}
+		return cosmos(800000, msg)
+	case "erc20_xfer":
+		// the ERC20 `transfer` of a registered pair's contract; towards the erc20 module address it is the
+		// conversion back into coins done by the EVM hook
+		pid := n.App.Erc20Keeper.GetTokenPairID(n.Ctx(), fmt.Sprintf("aLIQUID%d", num(t, "id", 0)))
+		pair, ok := n.App.Erc20Keeper.GetTokenPair(n.Ctx(), pid)
+		if !ok {
+			return nil, fmt.Errorf("no pair")
+		}
+		var to common.Address
+		if str(t, "to") == "mod:erc20" {
+			to = common.BytesToAddress(authtypes.NewModuleAddress("erc20"))
+		} else {
+			to = ethAddr(w.Acct(str(t, "to")))
+		}
+		data := append([]byte{0xa9, 0x05, 0x9c, 0xbb}, common.LeftPadBytes(to.Bytes(), 32)...)
+		data = append(data, common.LeftPadBytes(coin(str(t, "amt")).Amount.BigInt().Bytes(), 32)...)
+		c := pair.GetERC20Contract()
+		bz, _, err := n.EthTxFor(from, &c, big.NewInt(0), 400000, data)
+		return bz, err
 	case "gov_coinomics":
 		// legacy parameter-change proposal switching coinomics off or on
 		v := "false"
@@ -570,6 +681,39 @@ func chainTx(n *Node, contracts *[]common.Address, t M) ([]byte, error) {
 		return bz, err
 	}
 	return nil, fmt.Errorf("unknown tx kind %q", str(t, "k"))
+}
+
+// splitEthGas returns the result data of a transaction with the gas figure of every Ethereum response in it
+// set to zero, and the sum of these figures.
+func splitEthGas(data []byte) ([]byte, int) {
+	var td sdk.TxMsgData
+	if len(data) == 0 || td.Unmarshal(data) != nil {
+		return data, 0
+	}
+	total, changed := 0, false
+	for _, r := range td.MsgResponses {
+		if r == nil || r.TypeUrl != "/"+"ethermint.evm.v1.MsgEthereumTxResponse" && !strings.HasSuffix(r.TypeUrl, ".MsgEthereumTxResponse") {
+			continue
+		}
+		var er evmtypes.MsgEthereumTxResponse
+		if er.Unmarshal(r.Value) != nil {
+			continue
+		}
+		total += int(er.GasUsed)
+		er.GasUsed = 0
+		if bz, err := er.Marshal(); err == nil {
+			r.Value = bz
+			changed = true
+		}
+	}
+	if !changed {
+		return data, 0
+	}
+	bz, err := td.Marshal()
+	if err != nil {
+		return data, 0
+	}
+	return bz, total
 }
 
 // flatten turns a JSON document into path -> scalar-digest pairs.
@@ -837,8 +981,11 @@ func chainMain(args []string) error {
 							fmt.Fprintln(os.Stderr, "DEBUG ---")
 						}
 					}
-					impres = append(impres, M{"k": kind, "code": int(ri.Code), "codespace": ri.Codespace, "data": digest(ri.Data),
-						"gen_code": int(r.Code), "gen_codespace": r.Codespace, "gen_data": digest(r.Data),
+					// (the gas figure inside an Ethereum response is compared on its own, like the gas of the result)
+					di, ei := splitEthGas(ri.Data)
+					dg, eg := splitEthGas(r.Data)
+					impres = append(impres, M{"k": kind, "code": int(ri.Code), "codespace": ri.Codespace, "data": digest(di),
+						"gen_code": int(r.Code), "gen_codespace": r.Codespace, "gen_data": digest(dg), "egas": ei, "gen_egas": eg,
 						"gas": int(ri.GasUsed), "gen_gas": int(r.GasUsed), "gasWanted": int(r.GasWanted)})
 				}
 				if r.Code != 0 {
